@@ -872,6 +872,25 @@ func prepare(c Case) *prepared {
 	if len(c.Coefs) == 0 && c.Frame&1 == 0 {
 		coefs = nil // nil and empty slices must both give an empty frame
 	}
+	if uint64(c.Frame)%3 != 0 {
+		// slices with spare capacity behind their length (a prefix of a longer array, the result of append): a
+		// message must carry len() elements, never cap() (seed C14-18)
+		extra := int(uint64(c.Frame)%5) + 1
+		cb := make([]float64, len(coefs)+extra)
+		for i := range cb {
+			cb[i] = -7.0e77
+		}
+		copy(cb, coefs)
+		if coefs != nil {
+			coefs = cb[:len(coefs)]
+		}
+		rb := make([]uint16, len(raw)+extra)
+		for i := range rb {
+			rb[i] = 0xA5A5
+		}
+		copy(rb, raw)
+		raw = rb[:len(raw)]
+	}
 	p.v = dastard.VerifRecord{Chan: int(c.Chan), Frame: c.Frame, TimeNs: c.Time, Pre: int(c.Pre), Data: raw, Signed: c.Signed,
 		PretrigMean: math.Float64frombits(c.Vals[0]), PeakValue: math.Float64frombits(c.Vals[1]),
 		PulseRMS: math.Float64frombits(c.Vals[2]), PulseAverage: math.Float64frombits(c.Vals[3]),
